@@ -3,8 +3,22 @@
 #include "vh.h"
 #include "lib/efuns/call_out.h"
 
+#ifdef NEOLITH_VERIF
+extern void verif_call_out_set_unique (int n);   /* verif hook in lib/efuns/call_out.c */
+#endif
+
 static int c10_cmd (char *line)
 {
+  if (!strncmp (line, "setuniq ", 8))
+    {
+      /* advance the serial number of call_out handles (never lowers it): reaches the end of the int range */
+#ifdef NEOLITH_VERIF
+      verif_call_out_set_unique (atoi (line + 8));
+#else
+      vh_out ("setuniq !nohook");
+#endif
+      return 1;
+    }
   if (!strcmp (line, "sweep"))
     {
       vh_out ("%ld tickbegin", (long) (current_time - VH_T0));
